@@ -294,5 +294,5 @@ def _run(spec, rec, qv):
 def subchecks(tier):
     return [
         Sub("labels_exhaustive", None, run_case, quick=0, thorough=0, enumerate=enumerate_labels),
-        Sub("generated", generated(), run_case, quick=10000, thorough=150000),
+        Sub("generated", generated(), run_case, quick=20000, thorough=200000),
     ]
